@@ -89,6 +89,29 @@ def verdicts(case, loop, name, ptrs):
     return out
 
 
+def post_union_failure(loop, parsed):
+    """a composed verifier one of whose members FAILS (raises: key source down, key bits unusable ...) has not accepted the packet:
+    it may raise or answer False, never True - whatever the other members say and in whatever order they are listed"""
+    from ndn.security.validator.digest_validator import union_checker
+
+    async def failing(name, sig):
+        raise RuntimeError('key source unavailable')
+
+    async def accepting(name, sig):
+        return True
+    name, ptrs = parsed[0], parsed[-1]
+    out = []
+    for label, members in (('failing member first', (failing, accepting)), ('failing member last', (accepting, failing))):
+        try:
+            r = loop.run(union_checker(*members)(name, ptrs))
+        except Exception:   # noqa - an error is not an acceptance
+            continue
+        if r:
+            out.append(('C02:union_checker:accepts-although-a-member-failed',
+                        f'union_checker({label}) answered {r!r} although one of its checkers raised'))
+    return out
+
+
 _COMPOSED = {}
 
 
@@ -477,6 +500,7 @@ def run_packet(case, rng, thorough, col=None, only_mut=None, wire_override=None)
                 return out + [(f'C02:{pf}:raises', f'{pf} raised {type(e).__name__}: {e} on an emitted packet', None)]
             out += [(k, m, None) for k, m in post_reported_ranges(case, w, parsed)]
             out += [(k, m, None) for k, m in post_accepts_genuine(case, w, loop, parsed)]
+            out += [(k, m, None) for k, m in post_union_failure(loop, parsed)]
         sp = case['signer']
         tamper = (sp is not None and sp['kind'] in VERIFIED_KINDS + ['digest_i']) or (kind == 'interest' and w['digest_range'] is not None)
         if not tamper:
